@@ -201,8 +201,11 @@ def ref_decode(codec: str, data: bytes, limit: int = 1 << 31) -> tuple[str, byte
             pos += len(chunk)
             if codec == "gzip":
                 buf = chunk
-                while buf:
-                    out += d.decompress(buf, 1 << 20)
+                while buf and not d.eof:
+                    got = d.decompress(buf, 1 << 14)  # small steps: output produced before a trailer error is kept
+                    out += got
+                    if not got and d.unconsumed_tail == buf:
+                        break  # no progress (cannot happen with a sane zlib; never spin)
                     buf = d.unconsumed_tail
                     if len(out) > limit:
                         return "big", bytes(out), 0
@@ -214,7 +217,7 @@ def ref_decode(codec: str, data: bytes, limit: int = 1 << 31) -> tuple[str, byte
         return "bad", bytes(out), 0
     if not d.eof:
         return "bad", bytes(out), 0
-    unused = len(d.unused_data) + (len(data) - pos)
+    unused = len(d.unused_data) + (len(data) - pos) + (len(d.unconsumed_tail) if codec == "gzip" else 0)
     return "ok", bytes(out), unused
 
 
